@@ -58,7 +58,9 @@ def span_lines(spans):
     return out
 
 
-UNDECIDED_PAT = re.compile(r'rlimit|resource limit|timed? ?out|could not finish|incomplete', re.I)
+# 'loop must have a decreases clause': a loop the contracts do not know (e.g. an iterator chain rewritten by hand into a `while`): a missing
+# annotation, not a failed obligation -> undecided (the native oracles covering the function are consulted), never an alarm by itself
+UNDECIDED_PAT = re.compile(r'rlimit|resource limit|timed? ?out|could not finish|incomplete|loop must have a decreases', re.I)
 
 
 def classify(b, vr):
